@@ -191,6 +191,12 @@ fn ix_body<C: IndexContainer<usize> + Clone>(v: &[u64], compressed: bool, list: 
     crate::section("VF:index.reserve_changed_contents");
     c.reserve(2);
     vassert!(c.iter().eq(want.as_slice().iter().copied()), "VF:index.reserve_changed_contents");
+    if compressed && doc_cost(&want) == 0 {
+        // C19: a sequence the stride absorbs completely occupies no heap at all — also after a reservation
+        crate::section("VF:index.heap");
+        let cap: usize = collect_heap(|cb| c.heap_size(cb)).iter().map(|p| p.1).sum();
+        vassert!(cap == 0, "VF:index.heap.reserve_allocates_for_strided_sequence");
+    }
     crate::section("VF:index.clear");
     c.clear();
     vassert!(c.is_empty() && c.len() == 0 && c.iter().count() == 0, "VF:index.clear");
@@ -221,11 +227,17 @@ fn run_dense(v: &[u64]) {
         let mut fs = <FlatStack<ConsecutiveIndexPairs<StringRegion>, IndexOptimized>>::default();
         for i in 0..n {
             fs.copy(string(v[2] + i as u64));
+            if i == 1 {
+                fs.reserve(3);
+            }
         }
+        // a second batch through extend (which reserves by size_hint) on the populated stack
+        fs.extend((0..n).map(|i| string(v[2] + 1 + i as u64)));
         let region_pairs = collect_heap(|cb| fs.heap_size(cb));
         // the last two pairs are the FlatStack's own index container (u32 and u64 lists)
         let own = &region_pairs[region_pairs.len() - 2..];
         vassert!(own.iter().all(|p| p.0 == 0), "VF:dense.flatstack_indices_cost_heap");
+        vassert!(own.iter().all(|p| p.1 == 0), "VF:dense.flatstack_indices_allocate_heap");
     } else {
         let mut fs = <FlatStack<ColumnsRegion<MirrorRegion<u8>>, IndexOptimized>>::default();
         for i in 0..n {
@@ -406,9 +418,9 @@ pub fn harnesses() -> Vec<H> {
         H { name: "flatstack_sequence", props: &["C03"], nargs: 8, pre: pre_fs, doms: doms_fs, run: run_fs, panic_ok: false,
             bound: "FlatStack over SliceRegion<MirrorRegion<u8>>/Vec, ConsecutiveIndexPairs<OwnedRegion<u8>>/IndexOptimized and /IndexList: 0..4 items from a 4-value pool built by copy / extend / from_iter (exact-size, filtered and chained iterators); get, iter, cloned iterator, size_hint, into_iter, reserve, clone, clear; out-of-bounds probe", kani: false },
         H { name: "index_containers", props: &["C05", "C19", "C08", "C10", "C18", "C01", "C02", "C03"], nargs: 7, pre: pre_ix, doms: doms_ix, run: run_ix, panic_ok: false,
-            bound: "IndexOptimized, IndexList<Vec<u32>,Vec<u64>>, Vec<usize>: all sequences of length 0..4 over the 12-value transition alphabet {0,1,2,3,4,5,6,8,u32::MAX,u32::MAX+1,2^63,usize::MAX} by push, one extend, two-three extend batches, or a push followed by extends; index/len/iter/clone/reserve/clear/with_capacity; heap bytes equal the documented cost rule", kani: false },
+            bound: "IndexOptimized, IndexList<Vec<u32>,Vec<u64>>, Vec<usize>: all sequences of length 0..4 over the 12-value transition alphabet {0,1,2,3,4,5,6,8,u32::MAX,u32::MAX+1,2^63,usize::MAX} by push, one extend, two-three extend batches, or a push followed by extends; index/len/iter/clone/reserve/clear/with_capacity; heap bytes equal the documented cost rule; a fully strided sequence allocates nothing, also after reserve", kani: false },
         H { name: "dense_indices_free", props: &["C19"], nargs: 3, pre: pre_dense, doms: doms_dense, run: run_dense, panic_ok: false,
-            bound: "FlatStack<ConsecutiveIndexPairs<StringRegion>, IndexOptimized> and FlatStack<ColumnsRegion<MirrorRegion<u8>>, IndexOptimized> with 0..40 items: own index container reports 0 used bytes", kani: false },
+            bound: "FlatStack<ConsecutiveIndexPairs<StringRegion>, IndexOptimized> and FlatStack<ColumnsRegion<MirrorRegion<u8>>, IndexOptimized> with 0..40 items by copy, a reserve in between and a second batch by extend (first composition): own index container reports 0 used and 0 allocated bytes", kani: false },
         H { name: "into_owned_laws", props: &["C14", "C20", "C12"], nargs: 4, pre: pre_io, doms: doms_io, run: run_io, panic_ok: false,
             bound: "read items of SliceRegion<MirrorRegion<u8>>, ColumnsRegion<MirrorRegion<u8>>, Option<&[u8]>, Result<&[u8],&str>, SliceRegion<SliceRegion<..>>: 4 values x 5 prior clone_onto targets (empty/shorter/longer/equal/other variant) x region-backed and owned-borrowed; region-to-region push (indices compared with the canonical form on a twin), also into ConsecutiveIndexPairs<SliceRegion<..>> followed by further items", kani: false },
         H { name: "read_item_ordering", props: &["C15"], nargs: 11, pre: pre_cmp, doms: doms_cmp, run: run_cmp, panic_ok: false,
